@@ -224,13 +224,25 @@ impl KMap {
     pub fn meta_type(&self) -> Option<KString> {
         use KValue::*;
 
-        match self.get_meta_value(&MetaKey::Type) {
-            Some(Str(s)) => Some(s),
-            Some(_) => Some("Error: expected string as result of @type".into()),
-            None => match self.get_meta_value(&MetaKey::Base) {
-                Some(Map(base)) => base.meta_type(),
-                _ => None,
-            },
+        // Follow the `@base` chain iteratively, stopping if it turns out to be cyclic
+        let mut map = self.clone();
+        let mut visited: Vec<KMap> = Vec::new();
+
+        loop {
+            match map.get_meta_value(&MetaKey::Type) {
+                Some(Str(s)) => return Some(s),
+                Some(_) => return Some("Error: expected string as result of @type".into()),
+                None => match map.get_meta_value(&MetaKey::Base) {
+                    Some(Map(base)) => {
+                        visited.push(map);
+                        if visited.iter().any(|v| v.is_same_instance(&base)) {
+                            return None;
+                        }
+                        map = base;
+                    }
+                    _ => return None,
+                },
+            }
         }
     }
 
